@@ -70,7 +70,7 @@
 (* internal step is taken at once -- the behaviours the harness can force. *)
 (* TLC checks the invariants on ALL interleavings (no constraint).         *)
 (*                                                                         *)
-(* Switches (SignedWant = TRUE, the others FALSE = the code as it is)       *)
+(* Switches (SignedWant = TRUE, the others FALSE = the code as it is)      *)
 (*   AtomicPeers   Peers() checks and parks in one step (no window for a   *)
 (*                 lost wake-up)                                           *)
 (*   SignedWant    discover() compares size >= limit (the code since       *)
